@@ -4,6 +4,15 @@ import json, subprocess
 
 # id -> (category, engine, technique, text, note, design_ref)
 CHECKS = {
+ "C02": ("fault_enumeration", "E-wire", "exhaustive enumeration of negotiation replies (kind x selected value x flags x length) x configurations x certificates on the real Connector::connect / x224::Client::connect over real TLS, with trace oracles on the raw and decrypted byte streams",
+         "Every selected-protocol value in the low byte, every single bit above it and mixed patterns, every reply kind (response, failure, echoed request, absent, every other type byte), every flag byte, wrong length fields, offered masks {0,1,2,3,8,0xB}, with NLA on/off, certificate checking on/off and a trusted RSA, trusted EC and untrusted certificate, are answered by the reference peer to the real client. Oracle: an unoffered/invalid selection ends in Err with nothing further written; an acceptable one is followed only by TLS records on the raw transport and (vacuity guard) the conforming conversation completes; no NTLMSSP/password/user bytes on the raw transport; no CredSSP or Client Info message outside TLS; with checking on, an untrusted certificate yields Err and zero application bytes at the server.",
+         "Trust is decided through OpenSSL's SSL_CERT_FILE seam; host-name matching is not exercised (rdp-rs connects with an empty name). Trusted: OpenSSL/native-tls, reference peer.", "§4 C02"),
+ "C03": ("exploration", "E-wire", "deviation-bounded exhaustive enumeration (<=2 alternatives; <=3 thorough) over 21 configuration/server-parameter dimensions; each case is a full real connect + activation + input + shutdown over real TLS checked against the mandated sequence",
+         "The default configuration, every single alternative and every pair (every triple in thorough) of: NLA, restricted admin, blank credentials, auto logon, password|hash, client names, screen sizes, layouts, credential sets, selected protocol, user ids 1001..65535, share ids, versions, optional SC_CORE fields, block orders, unknown blocks, SC_NET padding, licence variants, capability lists (Windows capture, unknown and empty sets), source descriptors, 0..2 reactivations. Oracle: connect succeeds; the reference peer sees exactly the mandated message sequence; no request is written while the reply it depends on is still unread; user id, channel 1003, share id, selected protocol and configured values are echoed; per demand-active exactly confirm-active + synchronize + cooperate + request-control + font-list; shutdown sends the disconnect-provider ultimatum.",
+         "NTLM challenge fixed to the Windows-like default here. Joins compared as a set. Trusted: reference peer (validated against the captures embedded in rdp-rs's tests).", "§4 C03"),
+ "C04": ("exploration", "E-wire", "every client PDU of full real conversations (configuration alternatives and a Unicode string alphabet for name/domain/user/password) parsed by strict independent parsers at every layer",
+         "Conversations as C03 (default, every single alternative; every pair in thorough) plus every string of the 4-class Unicode alphabet x boundary lengths as client name, domain, user and password with NLA on and off. Every message the client writes is parsed strictly: TPKT/X.224, DER connect-initial, PER conference-create-request, CS_* block lengths, 32-byte clientName (<=15 UTF-16 units + NUL), info packet counts/terminators/extended info, share control/data lengths, confirm-active counts and per-type capability sizes, input PDU numEvents, NTLM descriptor triples, DER TSRequest/TSCredentials; the strings must equal the configured ones.",
+         "Lenient fields: uncompressedLength spellings, sourceDescriptor NUL. Trusted: vref strict parsers.", "§4 C04"),
  "C05": ("fault_enumeration", "E-wire", "deviation-bounded exhaustive fault enumeration (1 deviation; 2 in thorough) over an honest setup conversation with the reference peer, plus all short byte strings at every parser entry, executed on the real connect path",
          "The real x224::Client::connect, mcs::Client::connect and sec::connect (licence) are run against the reference peer with every single deviation of every server message: every byte offset x value set (all 256 in thorough), every offset as 16/32-bit field in both byte orders x boundary set, every truncation, extensions; every message payload and every parser entry (gcc response, licence, per primitives) additionally receives every byte string of length <=2 (<=3) and every string of length 3..5 (..6) over 8 boundary bytes; thorough adds all pairs of {00, FF, truncate} faults. Oracle: the call returns (panic caught and attributed), no abort, allocation rule, read-count bound, no hang (per-case journal + timeout).",
          "Post-negotiation layers run over Stream::Raw via hook H3 (the TLS path is C02/C07). The checked build (overflow checks on) decides; the wrapping build is part of thorough. Trusted: reference peer, counting allocator.", "§4 C05"),
@@ -22,6 +31,9 @@ CHECKS = {
  "C16": ("exploration", "E-codec", "exhaustive enumeration of operation sequences (wrap/unwrap x lengths) and of all single-bit flips/truncations/extensions of sealed messages against reference MS-NLMP sealing",
          "All sequences of <=3 (<=4 thorough) wrap/unwrap operations over 10 message lengths and 5 session keys run on the real NTLMv2SecurityInterface (constructed directly and via a real handshake) and compared byte for byte with reference SEAL+SIGN carrying cipher state and sequence numbers; every single-bit flip of every peer-sealed message of length 0..17, 100, 256 (at stream positions 0 and 1), truncations, extensions, reflection and rewritten sequence numbers must be rejected.",
          "Session keys are 5 boundary/pattern values. Trusted: vref::ntlm::SealCtx (reproduces MS-NLMP 4.2.4.4 at start-up).", "§4 C16"),
+ "C17": ("exploration", "E-wire", "exhaustive enumeration of all 32 mode combinations x credential sets x selectable protocols on full real connects over real TLS, with decrypted-credential and byte-search oracles",
+         "All combinations of {NLA, restricted admin, blank credentials, auto logon, password|hash} x 3 credential sets (every alphabet string as password in thorough) x every protocol the server may select. Oracle: the TSCredentials the reference server unseals and the Client Info it parses match the mode table; RDP_NEG_REQ announces restricted admin; auto-logon bit iff requested; password (UTF-8/UTF-16LE) neither on the raw transport nor in NTLM tokens; credential-bearing messages only inside TLS; password at most once in the decrypted stream.",
+         "Trusted: reference CredSSP/NTLM server, OpenSSL.", "§4 C17"),
  "C18": ("exploration", "E-codec", "bounded-exhaustive enumeration of message-model shapes and of PER/ASN.1/GCC value domains, each encoded and decoded by the real code and by independent reference codecs",
          "Every message shape of <=4 nodes (<=5 thorough) over the library's model (integers of both endianness, byte blocks, Check, Trame, nested Component, size-dependent and skippable fields, trailing Option, trailing array) is written, measured and read back; every PER length 0..0x7FFF, PER integers (all u16, u32 boundaries; all 2^32 in thorough), integer16 (value,minimum) pairs and rows (all 2^31 pairs in thorough), every nibble-valid 6-arc OID over 7 values, octet and numeric strings; ASN.1 INTEGER/ENUMERATED/OCTET STRING boundaries and the tagged shapes of MCS/CredSSP against an independent DER codec; GCC request and every response of the reference encoder (versions x optional fields x 0..31 channels x block orders x unknown block).",
          "PER integer agreement is value-level (non-minimal 0xFF/0xFFFF spelling noted). Trusted: vref::{per,der,gcc}.", "§4 C18"),
